@@ -419,6 +419,17 @@ loop:
 				}
 			}
 
+		case <-rpc.Context().Done():
+			// A call with a context of its own that is done is dropped
+			// by the region client without a result.
+			if rpc.Context() == ctx {
+				canceledIndex = i
+				break loop
+			}
+			results[rpcToRes[rpc]].Error = rpc.Context().Err()
+			unretryableError = true
+			ok = false
+
 		case <-ctx.Done():
 			canceledIndex = i
 			break loop
